@@ -219,7 +219,7 @@ class Runtime:
     def enter(self, t, pol, site):
         if isinstance(t, SBool):
             STATS['merged_sites'].add(site)
-            g = t if pol else SBool(z3.Not(t.term), None)
+            g = t if pol else SBool(z3.Not(t.term), t.zero_of, t.nonzero_of)
             self.guards.append(g)
             self.sites.append(site)
             _ex().speculative += 1
@@ -265,6 +265,10 @@ class Runtime:
     def phi(self, t, a, b, name='?', site='?'):
         if not isinstance(t, SBool):
             return a if t else b
+        if a is True and b is False:
+            return t                      # a flag set under the condition is the condition (keeps its annotations)
+        if a is False and b is True:
+            return v_not(t)
         try:
             return self.merge(t.term, a, b, name)
         except MergeAbort as e:
@@ -457,7 +461,7 @@ class Runtime:
         if isinstance(v, (SInt, SNum)):
             v = v != 0
         if isinstance(v, SBool):
-            return mkbool(z3.Not(v.term))
+            return v_not(v)
         return not v
 
     def ifexp(self, c, tha, thb):
